@@ -536,6 +536,29 @@ for _kwg in (False, True):
                                   label=f"hvsrpy.data_wrangler.read_single[options={'given' if _kwg else 'None'},orientation={'given' if _dgg else 'None'}]",
                                   clauses=["read_single: the first reader in table order that accepts the file, with the caller's options and orientation"]))
 
+# ---------------------------------------------------------------------------------------------------------------------
+# TimeSeries.from_trace: the samples of the obspy trace (trace.data) and its sampling interval (trace.stats.delta), through the constructor (C18: a fresh copy).
+import contracts.C18 as _C18c
+from pyvc.contract import sym_arr1 as _sym_arr1
+_NTRC, _DELTA = z3.Int("n_trace_samples"), z3.Real("trace_delta")
+
+
+def _ftr_inputs(ex, st):
+    data = _sym_arr1(ex, st, "trace_data", _NTRC, owner="param:trace.data")
+    stats = sym_obj(ex, st, "Stats", {"delta": _DELTA, "sampling_rate": z3.Real("trace_sampling_rate"), "npts": z3.Int("trace_npts")}, owner="param:trace.stats")
+    st.env["trace"] = sym_obj(ex, st, "Trace", {"data": data, "stats": stats, "meta": stats}, owner="param:trace")
+    st.env["cls"] = _C18c.CLS
+    st.env["NTRC"], st.env["DELTA"] = _NTRC, _DELTA
+    # obspy's Stats keeps delta = 1 / sampling_rate and npts = len(data) (A-OBSPY): either spelling of the interval is the same number
+    return [_NTRC >= 0, z3.Real("trace_sampling_rate") > 0, _DELTA * z3.Real("trace_sampling_rate") == 1, z3.Int("trace_npts") == _NTRC]
+
+
+FROM_TRACE = Contract(qual="hvsrpy.timeseries.TimeSeries.from_trace", params=["cls", "trace"], make_inputs=_ftr_inputs, modifies=[],
+                      ensures=["len(result.amplitude) == NTRC", "forall(i, 0, NTRC, result.amplitude[i] == trace.data[i])", "not (result.amplitude is trace.data)",
+                               "result.dt_in_seconds == DELTA"],
+                      notes="exactly the trace's samples, in order, in storage of the time series' own, with the trace's sampling interval")
+TASKS.append(FunctionTask(FROM_TRACE, label="hvsrpy.timeseries.TimeSeries.from_trace", clauses=["obspy formats: a component holds exactly the samples of its trace with the trace's time step"]))
+
 META = dict(
     level="other",
     explanation="proved: _check_npts raises iff the counts differ; _arrange_traces for three traces and all 64 combinations of channel-code endings "
